@@ -214,6 +214,10 @@ impl Schema {
 
     pub fn lit_text(&self, file: usize, l: &Lit) -> String {
         match l {
+            // one value in four is spelled in hexadecimal (either sign)
+            Lit::Int(i) if i.rem_euclid(4) == 1 && *i != i64::MIN => {
+                if *i < 0 { format!("-0x{:x}", -*i) } else { format!("0x{:X}", i) }
+            }
             Lit::Int(i) => format!("{}", i),
             Lit::Dbl(s) => s.clone(),
             Lit::Str(s) => format!("\"{}\"", s),
@@ -1329,6 +1333,15 @@ pub fn generate(seed: u64, profile: &GenProfile) -> Schema {
             .enumerate()
             .map(|(k, t)| Field { id: k as i16 + 1, name: format!("f{}", k + 1), req: Req::Default, ty: Ty::Ref(*t), default: None, annots: vec![] })
             .collect();
+        // a struct that holds ONLY lists of fixed-width elements (no element owns heap memory):
+        // what a failed decode of it leaves behind is the list buffer itself
+        let fixed: Vec<Field> = [Ty::I64, Ty::I32, Ty::Double, Ty::I16, Ty::I8, Ty::Bool, Ty::Uuid]
+            .into_iter()
+            .enumerate()
+            .map(|(k, t)| Field { id: k as i16 + 1, name: format!("f{}", k + 1), req: if k % 3 == 1 { Req::Optional } else { Req::Default }, ty: Ty::List(Box::new(t)), default: None, annots: vec![] })
+            .collect();
+        g.s.defs.push(Def { file, name: format!("S{}", counters.0), kind: Kind::Struct, fields: fixed, annots: vec![] });
+        counters.0 += 1;
         let mut ufs = ufs;
         let n = ufs.len() as i16;
         ufs.push(Field { id: n + 1, name: format!("f{}", n + 1), req: Req::Default, ty: Ty::List(Box::new(Ty::Bool)), default: None, annots: vec![] });
@@ -1462,6 +1475,10 @@ pub fn generate(seed: u64, profile: &GenProfile) -> Schema {
             Field { id: 12, name: "f12".into(), req: Req::Optional, ty: Ty::Double, default: Some(Lit::Int(86_400_000_000_001)), annots: vec![] },
             Field { id: 13, name: "f13".into(), req: Req::Required, ty: Ty::Double, default: Some(Lit::Int(-123_456_789)), annots: vec![] },
             Field { id: 14, name: "f14".into(), req: Req::Default, ty: Ty::I64, default: Some(Lit::Int(-9_223_372_036_854_775_807)), annots: vec![] },
+            // negative values that `lit_text` spells in hexadecimal (-0xfff, -0x7f), also inside a list
+            Field { id: 15, name: "f15".into(), req: Req::Default, ty: Ty::I32, default: Some(Lit::Int(-4095)), annots: vec![] },
+            Field { id: 16, name: "f16".into(), req: Req::Optional, ty: Ty::I8, default: Some(Lit::Int(-127)), annots: vec![] },
+            Field { id: 17, name: "f17".into(), req: Req::Default, ty: Ty::List(Box::new(Ty::I16)), default: Some(Lit::List(vec![Lit::Int(-3), Lit::Int(2), Lit::Int(-255)])), annots: vec![] },
         ];
         g.s.defs.push(Def { file, name: format!("S{}", counters.0), kind: Kind::Struct, fields: fs, annots: vec![] });
         counters.0 += 1;
